@@ -444,7 +444,7 @@ func anpOrderSx(pe *eval.PolicyEngine) *Sx {
 // generator
 
 func genHistCase(r *Rng, id int, tier string) *Sx {
-	cfg := &genCfg{anp: true, banp: true, pods: true, namedOnIPPct: 0, maxNP: 3, maxWl: 4} // a named port meeting an IP destination makes eval depend on the map order of policies
+	cfg := &genCfg{anp: true, banp: true, pods: true, namedOnIPPct: 5, maxNP: 3, maxWl: 4} // a named port meeting an IP destination: eval answers or fails by the first policy in name order (model and tool alike)
 	c := Ls(At("hist"), Ai(int64(id)), Ls(At("cap"), Ai(int64(Pick(r, []int{2, 3, 10, 10, 500})))))
 	nss := []string{"ns0", "ns1", "default"}
 	// vocabulary: a few pods (some sharing an owner), namespaces, policies
